@@ -461,4 +461,35 @@ theorem next_spec (n : Int) (r : Reader) :
 theorem next_le (n : Int) (r : Reader) : r.Le (next n r).2 := by
   rw [next_spec]; exact ⟨rfl, by simp⟩
 
+/-! ### checkLength -/
+
+theorem checkLength_ok {len : Int} {r r' : Reader} {u : Unit} (h : checkLength len r = (.ok u, r')) :
+    r' = r ∧ 0 ≤ len ∧ len.toNat ≤ r.remaining := by
+  unfold checkLength at h
+  split at h
+  · simp at h
+  · rename_i hc
+    simp only [Prod.mk.injEq] at h
+    exact ⟨h.2.symm, by omega, by omega⟩
+
+theorem checkLength_err {len : Int} {r r' : Reader} {e : Err} (h : checkLength len r = (.error e, r')) :
+    r' = r ∧ e = .eof ∧ (len < 0 ∨ (r.remaining : Int) < len) := by
+  unfold checkLength at h
+  split at h
+  · rename_i hc
+    simp only [Prod.mk.injEq, Except.error.injEq] at h
+    exact ⟨h.2.symm, h.1.symm, by omega⟩
+  · simp at h
+
+theorem checkLength_snd (len : Int) (r : Reader) : (checkLength len r).2 = r := by
+  unfold checkLength; split <;> rfl
+
+theorem checkLength_of_le {len : Int} {r : Reader} (h0 : 0 ≤ len) (h : len.toNat ≤ r.remaining) :
+    checkLength len r = (.ok (), r) := by
+  unfold checkLength; rw [if_neg (by omega)]
+
+theorem checkLength_of_gt {len : Int} {r : Reader} (h : len < 0 ∨ (r.remaining : Int) < len) :
+    checkLength len r = (.error .eof, r) := by
+  unfold checkLength; rw [if_pos (by omega)]
+
 end Tars
